@@ -83,9 +83,36 @@ def w_pinv(ctx, rng, idx):
     call('TT.pinv', lambda: u.pinv(index, threshold=1e-10, overwrite=True), prop=P)
 
 
+def w_flags(ctx, rng, idx):
+    """svd / pinv with one or both orthonormalisation sweeps switched off, on input that is in exactly the gauge the omitted
+    sweep would have produced - and not in the other one, so that the remaining sweep has real work to do"""
+    t, kind = vector_tt(rng)
+    d = t.order
+    index = int(rng.integers(1, d))
+    which = int(rng.integers(0, 3))
+    with probe.oracle():
+        u = tt.TT(gen.clone_cores(t.cores))
+        if which == 0:  # left part orthonormal only
+            u.ortho_left(end_index=max(index - 2, -1)) if index >= 2 else None
+            fl, fr = False, True
+        elif which == 1:  # right part orthonormal only
+            u.ortho_right(end_index=index)
+            fl, fr = True, False
+        else:
+            u.ortho_left(end_index=max(index - 2, -1)) if index >= 2 else None
+            u.ortho_right(end_index=index)
+            fl, fr = False, False
+    ctx.describe({'op': 'svd/pinv with sweeps off', 'rows': t.row_dims, 'ranks': u.ranks, 'kind': kind, 'index': index, 'ortho_l': fl, 'ortho_r': fr})
+    call('TT.svd', lambda: u.svd(index, ortho_l=fl, ortho_r=fr), prop=P)
+    call('TT.pinv', lambda: u.pinv(index, ortho_l=fl, ortho_r=fr), prop=P)
+    call('TT.svd', lambda: u.svd(index, threshold=1e-10, ortho_l=fl, ortho_r=fr), prop=P)
+    call('TT.pinv', lambda: u.pinv(index, threshold=1e-10, ortho_l=fl, ortho_r=fr), prop=P)
+
+
 WORKLOADS = [
     Workload('svd', w_svd, 300, 6000),
     Workload('pinv', w_pinv, 300, 6000),
+    Workload('flags', w_flags, 200, 4000),
     ambient.WORKLOAD,
 ]
 REQUIRED = ['C05|TT.svd:u_orthonormal_columns', 'C05|TT.svd:v_orthonormal_rows', 'C05|TT.svd:singular_values', 'C05|TT.svd:reconstruction',
